@@ -136,6 +136,39 @@ def run(ctx):
                           % (adt.rsplit("::", 1)[1], fld, F.fmt_expr(e)), site=isect.where(bi))
     ctx.floor("C08-R1", "bound fields wired in Schema::intersect", len(seen), 8)
 
+    # ------------------------------------------------------------------ R4 inclusive vs exclusive keyword with the same value
+    # minimum == exclusiveMinimum (literally, the Draft-4 boolean form, or via allOf) must exclude the value: in the arm where
+    # both are present, the edge taken *at equality* of the two payloads has to produce the exclusive result (flag true).
+    NSCH = "llguidance::json::schema::NumberSchema"
+    for fn, inc_f, exc_f in (("get_minimum", "minimum", "exclusive_minimum"), ("get_maximum", "maximum", "exclusive_maximum")):
+        gb = ctx.body(NSCH + "::" + fn)
+        results = {}   # block -> flag constant of the returned tuple
+        for bi, si, st in gb.statements():
+            r = st.get("r", {})
+            if st["s"] == "assign" and st["p"] == [0] and r.get("rv") == "agg" and r.get("kind") == "tuple" and len(r["ops"]) == 2 and "iv" in r["ops"][1]:
+                results[bi] = r["ops"][1]["iv"] == "1"
+        n_cmp = 0
+        for bi, e, targets, otherwise in gb.switch_edges():
+            cur, pol = F.peel_polarity(e)
+            if cur[0] != "bin" or cur[1] not in ("Ge", "Gt", "Le", "Lt"):
+                continue
+            sides = [("inc" if inc_f in F.fmt_expr(x) and exc_f not in F.fmt_expr(x) else ("exc" if exc_f in F.fmt_expr(x) else "?")) for x in (cur[2], cur[3])]
+            if sorted(sides) != ["exc", "inc"]:
+                continue
+            n_cmp += 1
+            at_eq = (cur[1] in ("Ge", "Le")) == pol      # truth value of the switch operand when both payloads are equal
+            tt, ft = F.bool_targets(targets, otherwise)
+            heads = tt if at_eq else ft
+            reach = set()
+            for h in heads:
+                reach |= gb.reachable(h)
+            flags = {results[b] for b in results if b in reach}
+            ctx.check(flags == {True}, "C08-R4", fn + ":tie-goes-to-exclusive",
+                      "when %s == %s the exclusive bound is returned" % (inc_f, exc_f),
+                      "NumberSchema::%s returns the inclusive bound when %s and %s carry the same value: the bound value itself is "
+                      "admitted (and x >= v AND x > v with an empty range compiles)" % (fn, inc_f, exc_f), site=gb.where(bi))
+        ctx.floor("C08-R4", "comparison of the inclusive and exclusive payload in " + fn, n_cmp, 1)
+
     # ------------------------------------------------------------------ R2 order of normalisation / arguments
     cnb = NUM + "check_number_bounds"
     ji = ctx.body(JC + "::json_int")
